@@ -213,7 +213,7 @@ func main() {
 		defer func() { pool <- w }()
 		full, red, kind := genTuples(op, run.Thorough())
 		plain, consts := formsFor(op)
-		tk := &task{opIdx: jb.idx, op: op, full: full, red: red, plain: plain, consts: consts}
+		tk := &task{opIdx: jb.idx, op: op, full: full, red: red, plain: plain, consts: consts, same: sameForms(op)}
 		tStart := time.Now()
 		defer func() {
 			if os.Getenv("C05_TIMING") != "" {
@@ -231,12 +231,17 @@ func main() {
 			outcomes.Inc("mismatch")
 		})
 		var d, nt int64
-		if len(red) > 0 && len(full) > 0 && &red[0] == &full[0] {
-			d, nt = distinctCount(jb.idx, full)
-		} else {
-			d, nt = distinctCount(jb.idx, full, red)
+		lists := [][]Tuple{full}
+		if !(len(red) > 0 && len(full) > 0 && &red[0] == &full[0]) {
+			lists = append(lists, red)
 		}
-		ev := int64(len(full)*len(plain)+len(red)*len(consts)) * 2
+		var sameEv int64
+		for _, sf := range tk.same {
+			lists = append(lists, sf.tuples)
+			sameEv += int64(len(sf.tuples)) * 2
+		}
+		d, nt = distinctCount(jb.idx, lists...)
+		ev := int64(len(full)*len(plain)+len(red)*len(consts))*2 + sameEv
 		mu.Lock()
 		distinct += d
 		nontriv += nt
@@ -253,6 +258,10 @@ func main() {
 		}
 		for _, f := range consts {
 			formsSeen[string(f)] += int64(len(red)) * 2
+		}
+		for _, sf := range tk.same {
+			formsSeen[string(sf.form)] += int64(len(sf.tuples)) * 2
+			k["tuples_same_value_forms"] += int64(len(sf.tuples))
 		}
 		perOpEvals[opCategory(op)] += ev
 		mu.Unlock()
@@ -466,7 +475,7 @@ func main() {
 			w := <-pool
 			defer func() { pool <- w }()
 			form := Form(strings.Repeat("P", len(op.In)))
-			s := w.open(op, []Form{form}, nil, st, func(m mismatch, t Tuple, class string) {
+			s := w.open(op, []Form{form}, func(Form) []Tuple { return nil }, st, func(m mismatch, t Tuple, class string) {
 				sig := fmt.Sprintf("%s:%s:%s:%s", m.Op, m.Engine, m.Form, class)
 				what := fmt.Sprintf("%s on the %s engine, operand form %s, operands [%s]: got %s, specification gives %s",
 					m.Op, m.Engine, m.Form, strings.Join(m.In, ", "), m.Got, m.Want)
